@@ -124,15 +124,18 @@ def run(ctx, obl):
         # like T's); with -getset as well when that cannot collide with anything in T (the accessors force a package reload)
         cdecls, cnames, gs = [], [], []
         if i >= 6 and not filemode[i] and ctx.rng.random() < 0.3:
-            cdecls, cnames = newgen.companion(ctx.rng, s, "o%d" % i, same_names=not shorts[i])
+            cdecls, cnames, _ = newgen.companion(ctx.rng, s, "o%d" % i, same_names=not shorts[i])
             if newgen.getset_neutral(s) and ctx.rng.random() < 0.6:
                 gs = ["-getset"]
             res.hist("multi_type", "companion" + ("+getset" if gs else ""))
         args = ["new", "-opt"] + gs + (["-short"] if shorts[i] else []) + ["-type=" + ",".join(cnames + [s["name"]])]
+        # 12%: the same command a second time, over the package that now holds its own output
+        rerun = i >= 6 and ctx.rng.random() < 0.12
+        res.hist("rerun", str(rerun))
         if filemode[i]:
             args = ["new", "-opt", "-file=t.go"]
             res.hist("selection_mode", "file")
-        pc = {"id": "o%d" % i, "files": {"t.go": newgen.render_file("cs", cdecls + [s])}, "runs": [{"args": args}], "oracle": {".": oracle}}
+        pc = {"id": "o%d" % i, "files": {"t.go": newgen.render_file("cs", cdecls + [s])}, "runs": [{"args": args}] * (2 if rerun else 1), "oracle": {".": oracle}}
         b.add(pc)
         pcases.append(pc)
         for mode, tag in (("nw", "n"), ("with", "w")):
@@ -147,8 +150,10 @@ def run(ctx, obl):
         im = {k[len(pref):]: v for k, v in r["obs"].items() if k.startswith(pref)}
         if "panic" in r["obs"]:
             im["panic"] = r["obs"]["panic"]
-        im["exit"] = str(r["runs"][0]["rc"])
+        im["exit"] = str(max(abs(x["rc"]) for x in r["runs"]))
         im["compile"] = "ok" if r["compile"] == "ok" else "error"
+        if r["compile"] != "ok":
+            c.setdefault("detail", {})["compile"] = r["compile"]
         # a multi-type run writes one file per type: T's own
         own = [v for k, v in sorted(r["written"].items()) if k.endswith(".%s.go" % c["spec"]["name"].lower())]
         src = "\n".join(own if own else r["written"].values())
